@@ -107,7 +107,9 @@ public:
 
     //! Allocate space for n objects.
     pointer allocate( size_type n, const void* /*hint*/ = nullptr) {
-        pointer p = static_cast<pointer>( my_pool->malloc( n*sizeof(value_type) ) );
+        // n*sizeof(value_type) must not wrap around
+        pointer p = n > static_cast<size_type>(-1) / sizeof(value_type) ? nullptr :
+            static_cast<pointer>( my_pool->malloc( n*sizeof(value_type) ) );
         if (!p)
             throw_exception(std::bad_alloc());
         return p;
